@@ -133,7 +133,9 @@ def verify_function(eng, qualname):
     import hashlib
     deps = sorted(getattr(f, 'inlined_shas', ()))
     sha = mod.sha(fdef) if not deps else hashlib.sha256((mod.sha(fdef) + ''.join(deps)).encode()).hexdigest()[:16]
-    return dict(obligations=obls, sha=sha, lines=(fdef.lineno, fdef.end_lineno), paths=len(outs),
+    adeps = sorted(getattr(f, 'inlined_ast_shas', ()))
+    ast_sha = hashlib.sha256((mod.ast_sha(fdef) + ''.join(adeps)).encode()).hexdigest()[:16]
+    return dict(obligations=obls, sha=sha, ast_sha=ast_sha, entry=(f.entry_env, f.entry_heap), lines=(fdef.lineno, fdef.end_lineno), paths=len(outs),
                 file=mod.path)
 
 
